@@ -109,16 +109,23 @@ func (g *blockBufferImageGranularity) CheckConflictAndAlignUp(
 	}
 
 	startSlot := g.getStartSlot(allocOffset)
-	for g.regionInfo[startSlot].allocCount > 0 &&
+	if g.regionInfo[startSlot].allocCount > 0 &&
 		g.AllocationsConflict(uint32(g.regionInfo[startSlot].allocType), allocType) {
 
+		// Move to the beginning of the next slot
 		allocOffset = memutils.AlignUp(allocOffset, g.bufferImageGranularity)
 
 		if regionSize < allocSize+allocOffset-regionOffset {
 			return allocOffset, true
 		}
 
-		startSlot++
+		// The allocation may still begin in a conflicting slot: either it already began at the
+		// start of one, or the next slot is shared with a conflicting allocation after the region
+		startSlot = g.getStartSlot(allocOffset)
+		if g.regionInfo[startSlot].allocCount > 0 &&
+			g.AllocationsConflict(uint32(g.regionInfo[startSlot].allocType), allocType) {
+			return allocOffset, true
+		}
 	}
 
 	endSlot := g.getEndSlot(allocOffset, allocSize)
